@@ -87,25 +87,77 @@ def parseCol (s : String) : Option Col :=
     else none
   | _ => none
 
+def colIdx (cols : List Col) (n : String) : Option Nat :=
+  (colIndexAux n cols 0).map (·.1)
+
+/-- a key group `a+b` (UNIQUE) or `^a+b` (PRIMARY KEY: also NOT NULL) over the columns of a table -/
+def addKeyGroup (ts : TableSchema) (g : String) : Option TableSchema :=
+  let (pk, names) := match g.toList with
+    | '^' :: rest => (true, (String.ofList rest).splitOn "+")
+    | _ => (false, g.splitOn "+")
+  match allSome (names.map (colIdx ts.cols)) with
+  | none => none
+  | some idxs =>
+    if idxs.isEmpty then none
+    else
+      let cols := if pk then ts.cols.zipIdx.map (fun (c, i) => if idxs.contains i then { c with notNull := true } else c)
+                  else ts.cols
+      some { ts with cols := cols, uniques := ts.uniques ++ [idxs] }
+
+def addKeyGroups (ts : TableSchema) : List String → Option TableSchema
+  | [] => some ts
+  | g :: gs => match addKeyGroup ts g with
+    | some ts' => addKeyGroups ts' gs
+    | none => none
+
+/-- `name(col:type[!][*],…[/a+b][/^a])` -/
 def parseTable (s : String) : Option TableSchema :=
   match s.splitOn "(" with
   | [name, rest] =>
     match rest.toList.reverse with
     | ')' :: body =>
       if !ident name then none
-      else match allSome ((String.ofList body.reverse).splitOn "," |>.map parseCol) with
-        | some cols => if cols.isEmpty then none else some ⟨name, cols⟩
-        | none => none
+      else match (String.ofList body.reverse).splitOn "/" with
+        | [] => none
+        | colsS :: groups =>
+          match allSome (colsS.splitOn "," |>.map parseCol) with
+          | some cols => if cols.isEmpty then none else addKeyGroups ⟨name, cols, []⟩ groups
+          | none => none
     | _ => none
   | _ => none
 
+/-- setup steps executed after the tables exist, in the order given: one autocommit transaction each -/
+inductive Item where
+  | row (t : String) (vals : List Val)
+  /-- constraint added later: `a+b` / `^a+b` by ALTER TABLE ADD CONSTRAINT, `@a+b` by CREATE UNIQUE INDEX,
+      `!c` by ALTER COLUMN SET NOT NULL.  The model's catalog is static: it carries the constraint from the start. -/
+  | con (t : String)
+
 structure Setup where
   tables : List TableSchema := []
-  rows : List (String × List Val) := []
+  items : List Item := []
   fresh : Bool := false
 
+def updTable (tables : List TableSchema) (t : String) (f : TableSchema → Option TableSchema) : Option (List TableSchema) :=
+  match tables with
+  | [] => none
+  | ts :: rest =>
+    if ts.name = t then (f ts).map (· :: rest)
+    else (updTable rest t f).map (ts :: ·)
+
+def applyCon (tables : List TableSchema) (t : String) (c : String) : Option (List TableSchema) :=
+  match c.toList with
+  | '!' :: rest =>
+    updTable tables t (fun ts =>
+      match colIdx ts.cols (String.ofList rest) with
+      | none => none
+      | some i => some { ts with cols := ts.cols.zipIdx.map (fun (c, j) => if j = i then { c with notNull := true } else c) })
+  | '@' :: rest => updTable tables t (fun ts => addKeyGroup ts (String.ofList rest))
+  | _ => updTable tables t (fun ts => addKeyGroup ts c)
+
+/-- tables are kept in reverse order while parsing -/
 def parseSetup : List String → Setup → Option Setup
-  | [], st => some { st with tables := st.tables.reverse, rows := st.rows.reverse }
+  | [], st => some { st with tables := st.tables.reverse, items := st.items.reverse }
   | w :: ws, st =>
     if w = "fresh" then parseSetup ws { st with fresh := true }
     else if w.startsWith "tab=" then
@@ -115,7 +167,13 @@ def parseSetup : List String → Setup → Option Setup
     else if w.startsWith "row=" then
       match (w.drop 4).toString.splitOn ":" with
       | [t, vs] => match allSome (vs.splitOn "," |>.map parseVal) with
-        | some vals => parseSetup ws { st with rows := (t, vals) :: st.rows }
+        | some vals => parseSetup ws { st with items := .row t vals :: st.items }
+        | none => none
+      | _ => none
+    else if w.startsWith "con=" then
+      match (w.drop 4).toString.splitOn ":" with
+      | [t, c] => match applyCon st.tables t c with
+        | some tables => parseSetup ws { st with tables := tables, items := .con t :: st.items }
         | none => none
       | _ => none
     else none
@@ -209,7 +267,7 @@ def showS (sort : Bool) : SOut → String
 def showOut (sort : Bool) : Out → String
   | .ok => "ok"
   | .stmt o => showS sort o
-  | .conflict => "conflict"
+  | .refused e => showErr e
   | .noSession => "nosession"
   | .batchErr e => "batch-" ++ showErr e
   | .batch outs => "batch(" ++ joinWith " " (outs.map (showS sort)) ++ ")"
@@ -221,14 +279,35 @@ def hasDup : List String → Bool
 
 def setupOps (st : Setup) : List Op :=
   st.tables.map (fun _ => Op.tick) ++ (if st.fresh then [] else [Op.tick]) ++
-    st.rows.map (fun (t, vals) => Op.auto (.ins t [vals]))
+    st.items.map (fun it => match it with
+      | .row t vals => Op.auto (.ins t [vals])
+      | .con _ => Op.tick)
 
 def finalOps (st : Setup) : List Op := st.tables.map (fun t => Op.auto (.sel t.name none))
 
 def anyErr (outs : List Out) : Bool :=
-  outs.any (fun o => match o with | .stmt (.err _) => true | .conflict => true | _ => false)
+  outs.any (fun o => match o with | .stmt (.err _) => true | .refused _ => true | _ => false)
 
-def render (sort : Bool) (st : Setup) (outs : List Out) : String :=
+/-- do the observed committed contents of a table violate one of its constraints?  (decidable `constraintsHold`) -/
+def rowsViolate (ts : TableSchema) (rs : List (List Val)) : Bool :=
+  !constraintsHold [ts] (rs.zipIdx.map (fun (vals, i) => ⟨(0, i), ts.name, vals⟩))
+
+def propFail (st : Setup) (t : String) (o : Out) : String :=
+  match o, st.tables.find? (fun ts => ts.name == t) with
+  | .stmt (.rows rs), some ts => if rowsViolate ts rs then "!PROPFAIL:constraint:" ++ t else ""
+  | _, _ => ""
+
+/-- a full autocommit read of a table shows committed contents: they are checked against the constraints -/
+def showOp (sort : Bool) (st : Setup) (op : Op) (o : Out) : String :=
+  match op with
+  | .auto (.sel t none) => showOut sort o ++ propFail st t o
+  | _ => showOut sort o
+
+def zipShow (sort : Bool) (st : Setup) : List Op → List Out → List String
+  | op :: ops, o :: os => showOp sort st op o :: zipShow sort st ops os
+  | _, _ => []
+
+def render (sort : Bool) (st : Setup) (ops : List Op) (outs : List Out) : String :=
   let n0 := (setupOps st).length
   let pre := outs.take n0
   if anyErr pre then "bad-setup"
@@ -237,8 +316,8 @@ def render (sort : Bool) (st : Setup) (outs : List Out) : String :=
     let nf := st.tables.length
     let mid := rest.take (rest.length - nf)
     let fin := rest.drop (rest.length - nf)
-    let finS := (st.tables.zip fin).map (fun (t, o) => t.name ++ "=" ++ showOut sort o)
-    s!"{joinWith " " (mid.map (showOut sort))} | {joinWith " " finS}"
+    let finS := (st.tables.zip fin).map (fun (t, o) => t.name ++ "=" ++ showOut sort o ++ propFail st t.name o)
+    s!"{joinWith " " (zipShow sort st ops mid)} | {joinWith " " finS}"
 
 def parseDefects (flags : List String) : Defects :=
   { updateKeepsInserterXmin := flags.contains "updateKeepsInserterXmin",
@@ -247,11 +326,15 @@ def parseDefects (flags : List String) : Defects :=
     ownDeleteWalksDeltas := flags.contains "ownDeleteWalksDeltas",
     deleteKeepsStaleXmax := flags.contains "deleteKeepsStaleXmax",
     deleteMarkSingleSlot := flags.contains "deleteMarkSingleSlot",
-    stmtNotAtomicInSession := flags.contains "stmtNotAtomicInSession" }
+    stmtNotAtomicInSession := flags.contains "stmtNotAtomicInSession",
+    indexNotMaintainedOnKeyUpdate := flags.contains "indexNotMaintainedOnKeyUpdate",
+    indexOneEntryPerKey := flags.contains "indexOneEntryPerKey",
+    uniqueNotRecheckedAtCommit := flags.contains "uniqueNotRecheckedAtCommit" }
 
 def defectNames : List String :=
   ["updateKeepsInserterXmin", "writeSetNeverRecorded", "xmaxNoneSeesAll", "ownDeleteWalksDeltas",
-   "deleteKeepsStaleXmax", "deleteMarkSingleSlot", "stmtNotAtomicInSession"]
+   "deleteKeepsStaleXmax", "deleteMarkSingleSlot", "stmtNotAtomicInSession",
+   "indexNotMaintainedOnKeyUpdate", "indexOneEntryPerKey", "uniqueNotRecheckedAtCommit"]
 
 def runLine (flags : List String) (line : String) : String :=
   match parseCase line with
@@ -262,9 +345,9 @@ def runLine (flags : List String) (line : String) : String :=
       let all := setupOps st ++ ops ++ finalOps st
       -- pseudo-flag `nosort`: rows in the model's own (row-id) order, for comparing the two machines list by list
       let sort := !flags.contains "nosort"
-      if flags.contains "abs" then render sort st (Spec.run st.tables all).2
+      if flags.contains "abs" then render sort st ops (Spec.run st.tables all).2
       else
-        let go (fl : List String) : String := render sort st (run (parseDefects fl) st.tables all).2
+        let go (fl : List String) : String := render sort st ops (run (parseDefects fl) st.tables all).2
         let out := go flags
         -- non-gating diagnostics: the defect flags this answer depends on (switching one off changes it)
         let fired := (flags.filter defectNames.contains).filter (fun f => go (flags.filter (· != f)) != out)
